@@ -17,6 +17,12 @@ Driver for merge / stub on top of the overlay model (C05, C10).
     restore                   go back to the remembered record
     graft                     put the newest container of the current record on top of the remembered
                               record and continue with that (a patch made on a stub applied to the real record)
+    squash I J                replace the containers I..J (0 = oldest) of the current record by the merged
+                              container of that run (`merge_files` on a file list opened with
+                              `allow_baseless=True`, the result used in place of the run) -> ok | err
+    guard FLAGS W             the refusal guard of `merge_files`: FLAGS = one character 0/1 per container
+                              (is it a stub), W = 0/1 (is there an uncommitted container)
+                              -> merge-allowed | refused-stub | refused-writable
 
 Paths / keys hex-encoded, values opaque tokens (as in `Drv/Ov.lean`).
 -/
@@ -55,6 +61,12 @@ def showListing (l : List (Path × NKind Val × List (Key × Val))) : String :=
 
 def showSkel (l : List (Path × Bool × List Key)) : String :=
   ";".intercalate (l.map fun e => showPath e.1 ++ ":" ++ (if e.2.1 then "G" else "D") ++ "[" ++ ",".intercalate (e.2.2.map hexStr) ++ "]")
+
+def parseFlags : List Char → Option (List Bool)
+  | [] => some []
+  | '0' :: cs => (parseFlags cs).map (false :: ·)
+  | '1' :: cs => (parseFlags cs).map (true :: ·)
+  | _ => none
 
 structure St where
   cur : Rec Val := Rec.init
@@ -109,6 +121,22 @@ def step (s : St) : List String → St × String
   | ["ncont"] => (s, s!"n {s.cur.length}")
   | ["save"] => ({ s with saved := s.cur }, "ok")
   | ["restore"] => ({ s with cur := s.saved }, "ok")
+  | ["squash", i, j] =>
+    match i.toNat?, j.toNat? with
+    | some i, some j =>
+      match squashRun s.cur i j with
+      | some (.ok r) => ({ s with cur := r }, "ok")
+      | some (.error _) => (s, "err")
+      | none => (s, "bad-op")
+    | _, _ => (s, "bad-op")
+  | ["guard", flags, w] =>
+    match parseFlags flags.toList, parseFlags w.toList with
+    | some fl, some [wr] =>
+      (s, match mergeGuard fl wr with
+        | .ok () => "merge-allowed"
+        | .error .stub => "refused-stub"
+        | .error .writable => "refused-writable")
+    | _, _ => (s, "bad-op")
   | ["graft"] =>
     match s.cur with
     | p :: _ => ({ s with cur := p :: s.saved }, "ok")
